@@ -317,5 +317,32 @@ def rule_v9(repo):
     return res
 
 
+def rule_v10(repo):
+    """top_sweep_conv applies a conversion at the topmost positions where it *changes* the term and goes on below the
+    others.  "Does not apply here" is reported in two ways in this library: by ConvException (rewr_conv, beta_conv) and by
+    the reflexive equation t = t (sort_disj, sort_conj, nat_eq_conv, the evaluation conversions ..).  The sweep therefore
+    decides by looking at the result: what the conversion returned is handed back only after `is_reflexive()` was asked
+    of it.  Stopping at a node because no exception came leaves everything below unnormalised: sort_conj ends with a sweep
+    of sort_disj, and (B | A) & C and C & (A | B) get different normal forms."""
+    from ..flow import flow_of
+    res = RuleResult('C10.V10', 'a sweep hands back what the conversion returned at a node only after asking whether it changed the term', floor=1)
+    f = repo.func(CONV, 'top_sweep_conv.get_proof_term')
+    rec = need(f.nested.get('rec'), 'top_sweep_conv.get_proof_term: nested rec not found')
+    cfg, flow = cfg_of(rec.node), flow_of(rec.node)
+
+    def from_cv(e):
+        roots = flow.resolve(e)
+        return any(r.startswith('self.cv') for r in roots) and not any(r.startswith('rec()') for r in roots)
+    asked = [t for t in cfg.test_nodes() if isinstance(t.ast, ast.Call) and call_attr(t.ast) == 'is_reflexive' and from_cv(t.ast.func.value)]
+    rets = [r for r in cfg.return_nodes() if r.ast.value is not None and from_cv(r.ast.value)]
+    need(rets, 'top_sweep_conv: no return of the conversion\'s result found')
+    bad = [r for r in rets if cfg.path_avoiding(r, skip_nodes=asked) is not None]
+    res.add('%s :: top_sweep_conv.get_proof_term.rec :: stops-only-where-changed' % CONV, not bad,
+            'the result of the conversion is returned behind is_reflexive()' if not bad else
+            'line %d `%s` is reached without asking is_reflexive() of it: at a node where the conversion answers t = t the sweep stops '
+            'and nothing below is converted' % (bad[0].lineno, src(bad[0].ast, 50)), '%s:%d' % (CONV, (bad or rets)[0].lineno))
+    return res
+
+
 def rules(repo):
-    return [rule_v1(repo), rule_v2(repo), rule_v3(repo), rule_v4(repo), rule_v5(repo), rule_v6(repo), rule_v7(repo), rule_v8(repo), rule_v9(repo)]
+    return [rule_v1(repo), rule_v2(repo), rule_v3(repo), rule_v4(repo), rule_v5(repo), rule_v6(repo), rule_v7(repo), rule_v8(repo), rule_v9(repo), rule_v10(repo)]
